@@ -116,11 +116,13 @@ def check_fn(c):
         ob.input_dep = any(input_dependent(c, t) for t in terms)
         if ok:
             ob.status = "discharged"
+        elif eng.is_constant_ctx((c.path, c.args)):
+            ob.status = "constant"
         else:
             ob.status = status_if_fail or ("assumed" if ob.float_dep else "failed")
         ob.detail = why
         ob.ctx = tuple(show(a) for a in c.args)
-        eng.record(ob)
+        c.obs.append(ob)
 
     for b in sorted(ft.cfg.reach):
         if not c.block_live(b):
@@ -205,7 +207,76 @@ def check_fn(c):
                 emit("ALLOC", "%s(%s)" % (short, render(ft, n)), ok, "requested size %s" % show(v), t["span"], [n])
 
 
+def lift_to_callers(c, goal):
+    """goal = (coef dict over atoms, const) that could not be proved locally.  If every atom is a parameter of the
+    function or the length of a slice/vector parameter, re-express it over the actual arguments of every call site of
+    this context and prove it there (one level up)."""
+    co, k = goal
+    for a in co:
+        if not (a[0] == "param" or (a[0] == "L" and a[1] == "param" and len(a) == 3)):
+            return False
+    callers = c.eng.callers.get((c.path, c.args), set())
+    if not callers:
+        return False
+    for (cpath, cargs, site) in callers:
+        if site is None:
+            return False
+        cc = c.eng.ctx(cpath, cargs)
+        if not cc.solved:
+            return False
+        t = cc.ft.blocks[site]["term"]
+        if t["k"] != "call":
+            return False
+        pos = len(cc.ft.blocks[site]["stmts"])
+        args = [cc.ft.operand(a, site, pos) for a in t["args"]]
+        new = {}
+        nk = k
+        for a, coef in co.items():
+            i = a[1] - 1 if a[0] == "param" else a[2] - 1
+            if i >= len(args):
+                return False
+            if a[0] == "param":
+                la = cc.linear(args[i], site)
+                if la is None:
+                    return False
+                for x, cx in la[0].items():
+                    new[x] = new.get(x, 0) + coef * cx
+                nk += coef * la[1]
+            else:
+                la = cc.len_atom(args[i], site)
+                if la is None:
+                    return False
+                new[la] = new.get(la, 0) + coef
+        if not cc.prove((new, nk), site):
+            return False
+    return True
+
+
 def prove_index(c, idx, vec_ref, len_term, b):
+    """idx < length, by intervals or linear facts (locally, else at every call site of this context)"""
+    if _prove_index(c, idx, vec_ref, len_term, b):
+        return True
+    # lifting: idx and the length as functions of the parameters
+    li = c.linear(idx, b)
+    if li is None:
+        return False
+    if vec_ref is not None:
+        la = c.len_atom(vec_ref, b)
+    else:
+        ll = c.linear(len_term, b)
+        la = None
+        if ll is not None and len(ll[0]) == 1 and ll[1] == 0 and list(ll[0].values()) == [1]:
+            la = next(iter(ll[0]))
+    if la is None:
+        return False
+    co = dict(li[0])
+    co[la] = co.get(la, 0) - 1
+    goal = (co, li[1] + 1)
+    # local facts may bound some atoms: keep only the parameter skeleton if all atoms are parameters
+    return lift_to_callers(c, goal)
+
+
+def _prove_index(c, idx, vec_ref, len_term, b):
     """idx < length, by intervals or linear facts"""
     iv = c.av(idx, b)
     if iv[0] != "i":
